@@ -100,8 +100,11 @@ def gen_v2_config(rng: random.Random, states: list, n: int, T: int, profile: dic
         spec["noise"] = {"depolarizing_rate": G.pick(rng, [0.05, 0.3])}
     elif r < 0.86:
         spec["noise"] = {"p_false_pos": G.pick(rng, [0.0, 0.05]), "p_false_neg": G.pick(rng, [0.1, 0.0])}
-    elif r < 0.93:
-        spec["noise"] = {"state_prep_error": G.pick(rng, [0.2, 0.5]), "runs": 3, "samples_per_run": 1}
+    elif r < 0.90:
+        spec["noise"] = {"state_prep_error": G.pick(rng, [0.2, 0.5]), "runs": G.pick(rng, [3, 8]), "samples_per_run": 1}
+    elif r < 0.95:
+        # stochastic + dissipative: averaged density matrices from mesolve
+        spec["noise"] = {"state_prep_error": 0.5, "runs": 8, "samples_per_run": 1, "dephasing_rate": 0.2}
     else:
         spec["noise"] = {"amp_sigma": 0.1, "laser_waist": 150.0, "runs": 2, "samples_per_run": 1}
     if rng.random() < 0.25:
